@@ -163,3 +163,43 @@ def column(rng, kind, n, none="none", small=False):
 
 def none_pattern(rng):
 	return rng.choice(["none", "none", "low", "high", "first", "last", "all"])
+
+
+class Sym:
+	"""a symbolic operand: every arithmetic operation records its operands in the order Python evaluated them
+	(Sym('x') * 3 -> '(x*3)', 3 * Sym('x') -> '(3*x)'), so an operation applied with its operands exchanged is visible in the value"""
+	def __init__(self, text):
+		self.text = str(text)
+
+	def __eq__(self, other):
+		return isinstance(other, Sym) and other.text == self.text
+
+	def __hash__(self):
+		return hash(self.text)
+
+	def __repr__(self):
+		return f"Sym({self.text})"
+
+	@staticmethod
+	def _t(x):
+		return x.text if isinstance(x, Sym) else repr(x)
+
+
+def _sym_ops():
+	for name, sym in (("add", "+"), ("sub", "-"), ("mul", "*"), ("truediv", "/"), ("floordiv", "//"), ("mod", "%"), ("pow", "**")):
+		def fwd(self, other, sym=sym):
+			if not isinstance(other, (Sym, int, float)):
+				return NotImplemented
+			return Sym(f"({Sym._t(self)}{sym}{Sym._t(other)})")
+		def rev(self, other, sym=sym):
+			if not isinstance(other, (Sym, int, float)):
+				return NotImplemented
+			return Sym(f"({Sym._t(other)}{sym}{Sym._t(self)})")
+		setattr(Sym, f"__{name}__", fwd)
+		setattr(Sym, f"__r{name}__", rev)
+	Sym.__neg__ = lambda self: Sym(f"(-{self.text})")
+	Sym.__pos__ = lambda self: Sym(f"(+{self.text})")
+	Sym.__abs__ = lambda self: Sym(f"abs({self.text})")
+
+
+_sym_ops()
